@@ -239,15 +239,24 @@ func (st *semState) expect(p string, mode string) expectation {
 			e.skip = fmt.Sprintf("reference evaluation panicked: %v", br.panicked)
 			return e
 		case br.compileErr != nil:
-			return expectation{exit: 3, errText: br.compileErr.Error()}
+			return expectation{exit: 3, errText: errText(br.compileErr)}
 		}
 		e.outs = append(e.outs, canonList(br.outs)...)
 		if br.err != nil {
 			e.exit = 5
-			e.errText = br.err.Error()
+			e.errText = errText(br.err)
 		}
 	}
 	return e
+}
+
+// errText renders an error for descriptions only; some error values of the
+// interpreter panic while formatting themselves.
+func errText(err error) (s string) {
+	if pv, _ := core.Protect(func() { s = err.Error() }); pv != nil {
+		s = fmt.Sprintf("<%T: Error() panics: %v>", err, pv)
+	}
+	return s
 }
 
 func cliArgs(p string, mode string) []string {
@@ -426,31 +435,7 @@ type semLevel struct {
 	modes []string
 }
 
-func semLevels(r *core.Run) []semLevel {
-	all := semModes
-	ls := []semLevel{
-		{level{name: "size0-full", n: 0, pol: polFull, pair: false, json: false}, all},
-		{level{name: "size1-k1", n: 1, pol: polK1, pair: false, json: false}, all},
-		{level{name: "size1-k4", n: 1, pol: polK4, pair: false, json: false}, []string{"null"}},
-		{level{name: "size2-k1", n: 2, pol: polK1, pair: false, json: false}, []string{"null"}},
-	}
-	if r.Thorough() {
-		ls = append(ls,
-			semLevel{level{name: "size1-full-pairs", n: 1, pol: polFull, pair: true, json: false}, []string{"null"}},
-			semLevel{level{name: "size2-k1", n: 2, pol: polK1, pair: false, json: false}, []string{"normal", "slurp"}},
-			semLevel{level{name: "size2-k4", n: 2, pol: polK4, pair: false, json: false}, []string{"null"}},
-			semLevel{level{name: "size3-k1", n: 3, pol: polK1, pair: false, json: false}, []string{"null"}},
-		)
-	}
-	return ls
-}
-
-func runSemantic(r *core.Run) {
-	st := newSemState()
-	defer st.close()
-	st.r = r
-
-	// capture set first (small)
+func runCapture(r *core.Run, st *semState, modes []string) bool {
 	caps := captureSet()
 	var ncap int64
 	for _, it := range caps {
@@ -460,13 +445,13 @@ func runSemantic(r *core.Run) {
 		}
 		if r.Expired() {
 			r.NotExhaustive("deadline: capture set not finished")
-			return
+			return false
 		}
 		if ok, _, _, vs := synCheck(it.text, it.skel, true); ok {
 			report(r, "syn", it, "", vs)
 		}
 		form, name, _ := strings.Cut(it.skel, ":")
-		for _, mode := range semModes {
+		for _, mode := range modes {
 			vs := st.check(it, mode, false, true)
 			if len(vs) > 0 && isSlurpName(name) && strings.HasSuffix(form, "-call-last") {
 				// one class per captured name: the last call of the pipeline is taken for fq's own help/repl/slurp
@@ -479,21 +464,35 @@ func runSemantic(r *core.Run) {
 		}
 		r.NontrivialHash(h)
 		ncap++
+		if ncap == 1 {
+			r.Sample(map[string]any{"oracle": "semantic, capture set", "program": it.text, "modes": modes})
+		}
 	}
 	r.Count("sem_capture_programs", ncap)
 	if r.ShardIdx == 0 {
 		r.Extra("capture_set_size", len(caps))
-		r.Section("semantic:capture-set")
+		r.Extra("capture_names", captureNames)
+		r.Section("semantic:capture-set:" + strings.Join(modes, "+"))
 	}
 	r.Logf("semantic capture set: %d programs (this shard)", ncap)
+	return true
+}
 
-	g := newGen(true)
-	seen := map[string]struct{}{}
-	for _, l := range semLevels(r) {
-		var n, comp, rte, okc int64
-		done := l.each(g, func(it item) bool {
+var semSeen = map[string]struct{}{}
+
+func runSemantic(r *core.Run, st *semState, levels []semLevel) bool {
+	seen := semSeen
+	for _, l := range levels {
+		if l.name == "capture-set" {
+			if !runCapture(r, st, l.modes) {
+				return false
+			}
+			continue
+		}
+		var n int64
+		done := l.each(r, func(it item) bool {
 			h := hashText(it.text)
-			if !r.Mine(int64(h >> 2)) {
+			if !l.mine(r, h) {
 				return true
 			}
 			if _, err := gojq.Parse(it.text); err != nil {
@@ -514,21 +513,19 @@ func runSemantic(r *core.Run) {
 			}
 			r.NontrivialHash(h)
 			if n%997 == 1 {
-				r.Sample(map[string]any{"level": "semantic " + l.name, "program": it.text, "args": cliArgs(it.text, l.modes[0])})
+				r.Sample(map[string]any{"oracle": "semantic", "level": l.name, "program": it.text, "args": cliArgs(it.text, l.modes[0])})
 			}
-			_ = comp
-			_ = rte
-			_ = okc
 			return true
 		})
 		r.Count("sem_runs_"+l.name, n)
 		if !done {
 			r.NotExhaustive("deadline: semantic level " + l.name + " (" + strings.Join(l.modes, ",") + ") not finished")
-			return
+			return false
 		}
 		if r.ShardIdx == 0 {
 			r.Section("semantic:" + l.name + ":" + strings.Join(l.modes, "+"))
 		}
 		r.Logf("semantic %s %v: runs=%d", l.name, l.modes, n)
 	}
+	return true
 }
